@@ -211,33 +211,44 @@ class C14(PropBase):
             "The harness synthesizes it with minidump-synth and runs process_minidump. Non-trivial = at least two threads and an exception "
             "record or Breakpad info; distinct = distinct case lines")
     trusted_base = [
-        "Coq 8.16.1 kernel (vm_compute only in the non-vacuity Examples)",
-        "hand-written model C14/Model.v of processor.rs into_process_state / get_exception_details and minidump.rs get_crash_address / "
-        "CrashReason::from_exception; tied to the code by the correspondence run",
+        "Coq 8.16.1 kernel (vm_compute in the non-vacuity Examples and in the three closed membership facts windows_code gen_lk 0xC0000005/6/409)",
+        "hand-written model C14/Model.v of processor.rs into_process_state / get_exception_details, minidump.rs get_crash_address / "
+        "CrashReason::from_exception, the /proc/self/status reader; tied to the code (a) by translate/c14_reason.py + C14/Source.v: the crash-reason "
+        "and crash-address dispatch, Os / Cpu / pointer-width tables, context-reader architectures, flag bits, one iteration of the thread closure, "
+        "pid / create time and the stack-memory choice are REGENERATED from the Rust source by a recursive-descent parser + symbolic execution and "
+        "proved equal to the hand model, (b) by the correspondence run",
+        "translate/c14_reason.py itself (parser for the Rust subset of those functions, the reading of Option::or / == / and_then / is_some, "
+        "`?`, if-let, match arms in order; it aborts on anything else) and its regex pins of the statements around the translated expressions",
         "the C08 range-table model (module, memory and unloaded-module lookups) and its theorems",
-        "membership in the ~6000-entry error-code enumerations is a parameter of the model; for the run it is computed by props/c14.py "
-        "from minidump-common/src/errors/*.rs (regex over `Name = literal`, aborts on anything else)",
-        "translate/c14_names.py: value -> Debug name tables of the 40 small error-code enumerations (regex, aborts on unrecognised entries); "
-        "the model's reason_string mirrors Display for CrashReason over them and is compared with the real string for 27 of 33 variants",
+        "membership tables MEM_* of all 30 error-code enumerations (~6000 values) regenerated into Gen/C14Reason.v (regex over `Name = literal`, "
+        "aborts on anything else); the model run uses them (gen_lk); the oracle reads the same files independently in props/c14.py",
+        "translate/c14_names.py: value -> Debug name tables of the 40 small error-code enumerations; reason_string mirrors Display for CrashReason "
+        "over them (compared for 27 of 33 variants; literal prefixes tied to the source by c14_display_prefix_is_source)",
         "extraction ExtrOcamlBasic; ocaml/c14/main.ml; harness/src/bin/c14.rs (minidump-synth dump writer, test-assembler)",
     ]
     assumptions = [
-        "the text of crash reasons is predicted for 27 of 33 variants; WinError / NTSTATUS / in-page / EXC_RESOURCE / EXC_GUARD strings are compared only as a function of (variant, payload)",
-        "parsing of /proc/self/status is exercised, not modelled (the model receives the parsed Pid)",
+        "the text of WinError / NTSTATUS / in-page / EXC_RESOURCE / EXC_GUARD reasons is not predicted by the model (the oracle recomputes the first three from the source's name tables; EXC_RESOURCE / EXC_GUARD only as a function of (variant, payload))",
+        "u8::is_ascii_whitespace and str::parse::<u32> (standard library) are modelled by hand (is_ws, parse_u32); non-UTF-8 bytes never form a digit",
         "the stack memory chosen for a walk is observed through the first scanned frame on x86, amd64, arm (not iOS), arm64 and old arm64 (64-bit CPUs: 8-byte aligned sp only; 32-bit: any alignment); on other CPUs the model's choice is not compared",
         "frames beyond frame 0 (the unwinder) belong to C03-C07; unloaded-module attribution is compared for frame 0",
+        "the readers of the module / unloaded-module / memory lists (filtering of bad entries) are modelled as in rounds 1-4 (C01 / C02 territory)",
     ]
     manifest = {
-        "text": "Theorems (Coq, all dump records, any number of threads): one call stack per thread-list entry in order with the same ids and "
+        "text": "Theorems (Coq, all dump records, any number of threads, both profiles): one call stack per thread-list entry in order with the same ids and "
                 "names; the requesting thread is the last non-dump-writer entry whose id is named by the exception record, else by the Breakpad "
-                "info, absent otherwise; its walk starts from the exception context when readable, every other walk from the thread context; "
-                "crash address = information[1] for Windows access violation / in-page error with >= 2 parameters else the exception address, "
-                "reduced mod 2^32 on 32-bit CPUs; gates of the refined crash-reason variants; pid / create time precedence; per-frame unloaded-module "
-                "offsets are exactly instruction - base of the covering unloaded modules, never trapping (from C08). The model is compared with "
-                "process_minidump on synthesized dumps in debug and release builds; an independent oracle recomputes thread order, requesting thread, "
-                "crash address, pid/time, modules and offsets from the case.",
-        "note": "Trusted: Coq kernel; hand-written model (correspondence-checked); C08 model; enumeration membership taken from the source by a regex; "
-                "reason strings, /proc/self/status parsing and frames beyond frame 0 are not modelled. No axioms.",
+                "info, absent otherwise; its walk - and the walk of EVERY duplicate of that id - starts from the exception context when readable, every "
+                "other walk from the thread context; crash address = information[1] for Windows access violation / in-page error with >= 2 parameters else "
+                "the exception address, reduced mod 2^32 on 32-bit CPUs; the crash-reason dispatch, the crash address, the platform tables, the flag bits, the "
+                "thread closure, pid / create time and the stack-memory choice are equal to decision trees regenerated from the Rust source on every run "
+                "(c14_reason_is_source, c14_platform_is_source, c14_process_state_is_source); on the regenerated enumeration tables Windows 0xC0000409 is the "
+                "fast-fail reason (shadowed by no earlier table), access violation / in-page error refine exactly for access types 0/1/8, the six Linux signals "
+                "refine by their si_code tables; the process id of a /proc/self/status text of any length is the decimal value of its first Pid line (0 on "
+                "overflow / absence); pid / create time precedence; per-frame unloaded-module offsets are exactly instruction - base of the covering unloaded "
+                "modules, never trapping (from C08). The model is compared with process_minidump on synthesized dumps in debug and release builds; an independent "
+                "oracle recomputes thread order, requesting thread, contexts, stack memory, crash address, crash reason (variant, payload, text where documented), "
+                "pid (own status parser), times, modules and offsets from the case.",
+        "note": "Trusted: Coq kernel; the translator (parser + symbolic execution of a Rust subset) and the hand model it is proved equal to; C08 model; "
+                "standard-library behaviours is_ascii_whitespace / parse::<u32> modelled by hand; frames beyond frame 0 not modelled. No axioms.",
     }
 
     # ------------------------------------------------------------------ generation
@@ -275,8 +286,13 @@ class C14(PropBase):
             e["tid"] = rng.below(1 << 32)
         code = flags = 0
         if osc == OS_WIN or (osc == OS_OTHER and rng.chance(1, 3)):
-            k = rng.below(12)
-            if k <= 2:
+            k = rng.below(14)
+            overlap = lambda a, b: sorted(set(en[a]) & set(en[b]))
+            if k == 12:      # values two enumerations share: the order in which the dispatch consults them decides
+                code = rng.choice(overlap("WinErrorWindows", "NtStatusWindows") or [0])
+            elif k == 13:
+                code = rng.choice(overlap("ExceptionCodeWindows", "NtStatusWindows") + overlap("ExceptionCodeWindows", "WinErrorWindows") or [0])
+            elif k <= 2:
                 code = 0xC0000005
             elif k <= 4:
                 code = 0xC0000006
